@@ -355,6 +355,13 @@ func (rp *Replayer) external(c *Case, ti *TypeInfo, ki *KeyInfo, cur, orig strin
 			return
 		}
 		rp.R.Count("ext_gpgv", 1)
+	case "pgp-inline":
+		out, err := run("gpgv", "--keyring", keyring(rp.W.Dir, ki.PgpPath), cur)
+		if err != nil {
+			ext("gpgv", "gpgv rejects the inline-signed message: %.300s", out)
+			return
+		}
+		rp.R.Count("ext_gpgv", 1)
 	case "pgp-clearsign":
 		out, err := run("gpgv", "--keyring", keyring(rp.W.Dir, ki.PgpPath), cur)
 		if err != nil {
